@@ -117,14 +117,21 @@ def gen_history(rng, max_commits=25):
                 if dotted_tags:
                     rel = rng.choice(["release-%d.%d", "release/%d.%d", "rel.%d-%d"]) % (rng.randint(1, 3), rng.randint(0, 3))
                 tags[f"ci-{bn}-{rel}-ok" if ci_tags else f"build_{bn}_{rel}_success"] = cid
+    other_tags = {}
+    if rng.random() < 0.25 and not ci_tags:
+        # tags that only END like build tags (a prefix in front of the pattern): they mark no builds
+        for k in range(rng.randint(1, 3)):
+            other_tags[rng.choice(["prebuild_%d_release_1_0_success", "ci/build_%d_release_2_1_success",
+                                   "rebuild_%d_release_1_2_success", "xbuild_%d_master_success"]) % (900 + k)] = rng.choice(ids)
     if rng.random() < 0.12:
         # a fork + upstream setup: the project tracks the remote 'upstream'; 'origin' has heads of its own
         decoys = {"origin/master": rng.choice(ids)}
         if rng.random() < 0.5:
             decoys["origin/release/1.0"] = rng.choice(ids)
         # (a remote's name may contain a slash)
-        return mg.Repo("r", commits, heads, tags, remote=rng.choice(["upstream", "upstream", "up/stream"]), decoys=decoys)
-    return mg.Repo("r", commits, heads, tags)
+        return mg.Repo("r", commits, heads, tags, remote=rng.choice(["upstream", "upstream", "up/stream"]), decoys=decoys,
+                       other_tags=other_tags)
+    return mg.Repo("r", commits, heads, tags, other_tags=other_tags)
 
 
 def collection_for(repo):
